@@ -34,6 +34,9 @@ def edit_programs(cfg, limit=None):
     return progs, r["states"]
 
 
+import os
+
+
 def body():
     c = Check("C06", "exploration")
     q = c.quick
@@ -248,19 +251,32 @@ def body():
     rng.shuffle(extra)
     for proto, cred, role, t, p in extra[:(40 if q else 400)]:
         mjobs.append((proto, cred, role, "trust_root", (t, p)))
+    # after the handshake the key-holding peer sends correctly protected records that are not application data (a handshake message, a ChangeCipherSpec, an unknown
+    # type, alerts of one, two and three octets, a TLSInnerPlaintext that is all padding), then "ping"; the application asks again after the refusal (VH_RECV_AGAIN):
+    # a refused record is never handed out later, and asking again neither crashes nor reads what was never written.  Both sanitizer builds.
+    POSTHS = ("post_hs_zero", "post_hs_zero16", "post_hs_handshake", "post_hs_ccs", "post_hs_unknown", "post_hs_alert1", "post_hs_alert3", "post_hs_alert_warn", "post_hs_empty_data")
+    for proto, sp in ((257, "tlcp"), (771, "srv"), (772, "srv")):
+        for dev in POSTHS:
+            for ex_ in (mexe, rexe):
+                mjobs.append((proto, sp + "_d2", "client", "-", (dev, ex_)))
+                mjobs.append((proto, sp + "_d2", "server", "trust_root", (dev, ex_)))
     mdone = 0
+    os.environ["VH_RECV_AGAIN"] = "1"
     with cf.ProcessPoolExecutor(14) as ex:
         futs = {}
         for j in mjobs:
             proto, cred, role, mutual, mp = j
+            dev, exe_, mp_ = ("honest", mexe, mp) if (mp is None or not isinstance(mp[0], str)) else (mp[0], mp[1], None)
             if role == "client":
-                futs[ex.submit(roguepeer.run, rcreds, mexe, proto, cred, mutual, "honest", "cli_d2", 60, mp)] = j
+                futs[ex.submit(roguepeer.run, rcreds, exe_, proto, cred, mutual, dev, "cli_d2", 60, mp_)] = j
             else:
-                futs[ex.submit(roguepeer.run_server, rcreds, mexe, proto, cred, mutual, "honest", 60, mp)] = j
+                futs[ex.submit(roguepeer.run_server, rcreds, exe_, proto, cred, mutual, dev, 60, mp_)] = j
+        os.environ.pop("VH_RECV_AGAIN", None)
         for f in cf.as_completed(futs):
             proto, cred, role, mutual, mp = futs[f]
-            key = "c06:msan:p%d:rogue-%s:%s:%s" % (proto, role, "mutual" if mutual != "-" else "oneway",
-                                                  "honest" if mp is None else "hs%d:%s" % (mp[0], "+".join("%d.%s.%s.%s" % (s_, k_, a_, "f" if f_ else "n") for s_, k_, a_, f_ in mp[1])))
+            posths = mp is not None and isinstance(mp[0], str)
+            key = "c06:%s:p%d:rogue-%s:%s:%s" % ("msan" if not posths or mp[1] == mexe else "asan", proto, role, "mutual" if mutual != "-" else "oneway",
+                                                "honest" if mp is None else mp[0] if posths else "hs%d:%s" % (mp[0], "+".join("%d.%s.%s.%s" % (s_, k_, a_, "f" if f_ else "n") for s_, k_, a_, f_ in mp[1])))
             c.count(1, key)
             mdone += 1
             try:
@@ -271,8 +287,13 @@ def body():
             ended = any(e.get("e") == "End" for e in evs)
             if san or not ended:
                 c.violation(key, "a library endpoint used uninitialised memory (MemorySanitizer), crashed or hung in a handshake with the independent peer: %s" % str(san)[:500], {"peer_view": view, "events": evs, "report": str(san)[:3000]})
-            elif mp is None and not any(e.get("e") == "HsRet" and e.get("rc") == 1 for e in evs):
-                c.violation(key, "the honest handshake with the independent peer did not complete under the MemorySanitizer build", {"peer_view": view, "events": evs})
+            elif (mp is None or posths) and not any(e.get("e") == "HsRet" and e.get("rc") == 1 for e in evs):
+                c.violation(key, "the honest handshake with the independent peer did not complete under the sanitizer build", {"peer_view": view, "events": evs})
+            elif posths:
+                # what the application may be given after the handshake: only what the peer wrote as application data ("ping", at most once, in order)
+                given = b"".join(bytes.fromhex(e.get("got", "")) for e in evs if e.get("e") in ("Data", "Again") and e.get("rc") == 1)
+                if given not in (b"", b"ping"):
+                    c.violation(key, "the application was handed bytes the peer never wrote as application data (a refused record came back on the next receive): %s" % given[:40].hex(), {"peer_view": view, "events": evs})
     c.cov["msan_handshakes"] = mdone
     c.sample({"seeds": ["%s/v%d (%d bytes)" % (t, v, len(s)) for t, v, s in seeds][:40]})
     return c.finish(
